@@ -162,30 +162,43 @@ def growth_hook(container):
         f = float(m.group(1)) if m else 2.0
         if f <= 1.0 or container in ("deque", "queue", "hashtable", "hashset"):
             f = 2.0
-        n = {}
-        reallocs = {}
+        total = {}      # successful appends so far per object (upper bound of its size)
+        run_n = {}      # appends in the current uninterrupted run of appends per object
+        run_re = {}     # buffer reallocations in that run
         need = 2 if container in ("hashtable", "hashset") else 1
+        out = []
+
+        def close(slot):
+            cnt = run_n.get(slot, 0)
+            if cnt >= 16:
+                big = max(total.get(slot, cnt), cnt)
+                bound = math.ceil(math.log(big) / math.log(f)) + math.ceil(1.0 / (f - 1.0)) + 2
+                if run_re.get(slot, 0) > bound:
+                    out.append(Diff("growth-count", h, len(ops) - 1, ops[-1],
+                                    f"object {slot}: {run_re[slot]} buffer reallocations during {cnt} consecutive appends "
+                                    f"(at most {big} elements), factor {f}, bound {bound}", "L2"))
+            run_n[slot] = 0
+            run_re[slot] = 0
+
         for i, op in enumerate(ops):
             name = op.split()[0]
-            if name not in appends or i >= len(c_lines):
-                continue
             mo = re.search(r"\bo=(\d+)", op)
             slot = mo.group(1) if mo else "0"
+            if name not in appends or i >= len(c_lines):
+                if not name.startswith(("get", "size", "capacity", "contains", "index_of", "peek", "top")):
+                    close(slot)
+                continue
             cs = vlib.sections(c_lines[i])
             mf = vlib.mem_fields(cs[2])
             if not mf or not re.search(r"\bst=0\b", cs[0]):
+                close(slot)
                 continue
-            n[slot] = n.get(slot, 0) + 1
+            total[slot] = total.get(slot, 0) + 1
+            run_n[slot] = run_n.get(slot, 0) + 1
             if mf["a"] >= need:
-                reallocs[slot] = reallocs.get(slot, 0) + 1
-        out = []
-        for slot, cnt in n.items():
-            if cnt < 16:
-                continue
-            bound = math.ceil(math.log(cnt) / math.log(f)) + math.ceil(1.0 / (f - 1.0)) + 2
-            if reallocs.get(slot, 0) > bound:
-                out.append(Diff("growth-count", h, len(ops) - 1, ops[-1],
-                                f"object {slot}: {reallocs[slot]} buffer reallocations for {cnt} appends, factor {f}, bound {bound}", "L2"))
+                run_re[slot] = run_re.get(slot, 0) + 1
+        for slot in list(run_n):
+            close(slot)
         return out
     return hook
 
